@@ -300,3 +300,46 @@ func (k *Kernel) Advance(d time.Duration) {
 //
 //go:norace
 func (k *Kernel) Elapsed() time.Duration { return time.Since(k.start) }
+
+// AdvanceHold moves the clock forward by d like Advance, but callbacks of
+// AfterFunc timers that fire on the way are created held: they have fired (Stop
+// reports false) and run only when the harness releases them - the
+// fired-but-not-run window of Go timers. It returns the held tasks.
+//
+//go:norace
+func (k *Kernel) AdvanceHold(d time.Duration) []*Task {
+	k.Quiesce()
+	target := time.Now().Add(d)
+	var held []*Task
+	for !k.aborting {
+		next := target
+		found := false
+		for _, t := range k.timers {
+			if t.active && !t.due.After(target) && (!found || t.due.Before(next)) {
+				next, found = t.due, true
+			}
+		}
+		if !found {
+			break
+		}
+		k.sleepUntil(next)
+		synctestWait()
+		n0 := len(k.tasks)
+		k.fireDue()
+		for _, t := range k.tasks[n0:] {
+			t.Held = true
+			held = append(held, t)
+		}
+		k.Quiesce()
+	}
+	if !k.aborting {
+		k.sleepUntil(target)
+		synctestWait()
+	}
+	return held
+}
+
+// Release makes a held task runnable.
+//
+//go:norace
+func (k *Kernel) Release(t *Task) { t.Held = false }
